@@ -5,6 +5,7 @@ import json
 import os
 import vf
 from checks import targets_common as tc
+from checks import wire_tier as wt
 
 LEVEL = "model_checking"
 LEVEL_TEXT = ("TLC checks PassExact on Targets for every target specification of the abstract universe and every iteration order. TLC-generated concrete "
@@ -52,3 +53,6 @@ def run(ctx):
         ctx.sample({k: (v if k != "hist" else v[:5]) for k, v in r0.items()})
     for r0 in vf.split_runs(vf.read_ndjson(t2))[:2]:
         ctx.sample(r0)
+    # socket-level tier: the real binary, every command's RunE wiring, chunking (>200 ranges), file and stdin targets, loopback application scans
+    n3, rej = wt.run_wire(ctx, select=lambda s: s["expect"]["kind"] in ("packet", "app"), label="c01w", focus="coverage")
+    wt.report(ctx, "C01", rej)
